@@ -7,7 +7,9 @@ use crate::refmodel::Strat;
 use crate::report::Report;
 use serde_json::{json, Value};
 
-pub const BAD_PATHS: [&str; 47] = [
+pub const BAD_PATHS: [&str; 56] = [
+    // JSONPath features the path language does not have: they name no claim of these trees
+    "$.*", "$.a.*", "$.a[*]", "$[*]", "$..*", "$.a[0:1]", "$.a[?(@)]", "$['a']", "$.a['a']",
     // names the library itself puts into the payload: a path naming them names no user claim
     "$.cnf", "$.cnf.jwk", "$.cnf.jwk.x", "$._sd_alg", "$._sd", "$._sd[0]", "$.iat",
     "a", "", "$", "$a", "a.b", " $.a", "$.zz", "$.a[7]", "$.a[0", "$.a]", "$.a[00]", "$.a[0]b", "$.a..b", "$.a.", "$.[0]", "$..a", "$.a[-1]", "$.a[ 0]",
@@ -224,7 +226,7 @@ pub fn run(rep: &Report) {
     };
     run_structures(rep, &format!("S({},3) x every Custom subset of 2..4 paths in every order", if quick { 3 } else { 4 }), &if quick { trees(3, 3) } else { trees(4, 3) }, &permuted, &|_| vec![Cfg::CHEAP], checks, false);
     run_structures(rep, "S(3,3) x every Custom subset with the path list reversed / every path twice / all notations of each listed node together", &trees(3, 3), &reordered, &two, checks, false);
-    run_structures(rep, "S(2,2) x every Custom subset + one malformed/dangling path (47 of them, front and back)", &small, &with_bad, &two, checks, false);
+    run_structures(rep, "S(2,2) x every Custom subset + one malformed/dangling path (56 of them, front and back)", &small, &with_bad, &two, checks, false);
     // alphabets
     let base = if quick { trees(2, 2) } else { trees(3, 3) };
     let names = crate::gen::name_alphabet();
